@@ -1,5 +1,203 @@
-import Toq.Driver.Util
-/-! Driver handlers for C09 (stub; filled in by the owner of this property). -/
+import Toq.Driver.QJson
+import Toq.Model.ExtGames
+/-! Driver front end for C09 (extended games, hedging, cloning).
+
+Matrices in the `QJson` dyadic encoding, rationals as `[num, den]` or an integer.  A game is
+`{"d":d,"nA":..,"nB":..,"nX":..,"nY":..,"prob":[rat…] (row-major x,y),"pred":[mat…] (index ((a·nB+b)·nX+x)·nY+y)}`.
+
+* `c09_avgop            game + {"f":[…],"g":[…]}`            → `{"mat":{"re":[rat…],"im":[rat…]}}` (`avgOperator`)
+* `c09_unent_lower      game + {"f","g","v":mat d×1}`        → `{"ok":rat}` Rayleigh quotient (spec: answer functions)
+* `c09_unent_upper      game + {"c":rat,"Ls":[mat…]}`        → `{"ok":true}` (all function pairs, order `i·nB^nY + j`)
+* `c09_unent_const_lower game + {"a","b","v"}`, `c09_unent_const_upper game + {"c","Ls"}` (mirror of the code)
+* `c09_hedge_primal   {"a","b","Q","X","L"}`, `c09_hedge_max_dual {"a","b","Q","Y","L"}`, `c09_hedge_min_dual …`
+* `c09_hedge2_*` (a = b = 4, operators in toqito's order `Y₁X₁Y₂X₂`), `c09_clone2_*` (a = 16, b = 4, order `Y₁Z₁X₁Y₂Z₂X₂`)
+* `c09_ptr1`, `c09_hedge2_ptr1`, `c09_clone2_ptr1` `{"X"}` → `Tr_1` (after reindexing); `c09_hedge2_reindex`,
+  `c09_clone2_reindex` `{"M"}`; `c09_kron_iy {"a","b","Y"}` → `1_a ⊗ Y` (tie checks of the index conventions)
+* `c09_clone_q {"m","states":[mat m×1…],"probs":[rat…]}`     → the operator `Q` of `optimal_clone`
+
+The verdict is always the one of the verified checker of `Toq.Model.ExtGames`; diagnostics only word a rejection. -/
+open Lean Toq.ExtGames EMat
+
 namespace Toq.Driver.C09
-def handlers : List (String × Handler) := []
+
+def firstFail (k : Nat) (p : Fin k → Bool) : Option Nat :=
+  ((List.finRange k).find? fun i => !p i).map (·.val)
+
+/-- why `psdCert A L` fails (`none` when it holds) -/
+def psdWhy {n k : Nat} (A : EMat n n) (L : EMat n k) : Option String :=
+  if !A.isHermitian then some "not_hermitian"
+  else
+    let R := A - L.mul L.ct
+    if !R.isHermitian then some "residual_not_hermitian"
+    else
+      match firstFail n fun i =>
+          decide (sumFinQ n (fun j => if j = i then 0 else (R.get i j).abs1) ≤ (R.get i i).re) with
+      | some i => some s!"residual_not_diag_dominant_row_{i}"
+      | none => if psdCert A L then none else some "psdCert_failed"
+
+def answer (r : Option Rat) (why : Unit → String) : Json :=
+  match r with
+  | some v => Json.mkObj [("ok", ratJson v)]
+  | none => reject (why ())
+
+def answerB (r : Bool) (why : Unit → String) : Json :=
+  if r then Json.mkObj [("ok", Json.bool true)] else reject (why ())
+
+def matJson {n m : Nat} (A : EMat n m) : Json :=
+  let es := (List.finRange n).flatMap fun i => (List.finRange m).map fun j => A.get i j
+  Json.mkObj [("re", Json.arr (es.map fun e => ratJson e.re).toArray),
+              ("im", Json.arr (es.map fun e => ratJson e.im).toArray)]
+
+def parseGame (j : Json) : Except String ((d : Nat) × Game d) := do
+  let d ← getNat j "d"
+  let nA ← getNat j "nA"
+  let nB ← getNat j "nB"
+  let nX ← getNat j "nX"
+  let nY ← getNat j "nY"
+  let prob ← getRatList j "prob"
+  let pred ← getEMatList j "pred" d d
+  if prob.length != nX * nY then throw s!"prob: expected {nX * nY} entries"
+  if pred.length != nA * nB * nX * nY then throw s!"pred: expected {nA * nB * nX * nY} matrices"
+  let probA := prob.toArray
+  let predA := pred.toArray
+  return ⟨d, { nA := nA, nB := nB, nX := nX, nY := nY,
+               prob := fun x y => if x < nX ∧ y < nY then probA.getD (x * nY + y) 0 else 0,
+               pred := fun a b x y =>
+                 if a < nA ∧ b < nB ∧ x < nX ∧ y < nY then predA.getD (((a * nB + b) * nX + x) * nY + y) zero
+                 else zero }⟩
+
+def hAvgOp : Handler := fun j => do
+  let ⟨_, G⟩ ← parseGame j
+  let f ← getNatList j "f"
+  let g ← getNatList j "g"
+  return Json.mkObj [("mat", matJson (avgOperator G (fnOfList f) (fnOfList g)))]
+
+def hUnentLower : Handler := fun j => do
+  let ⟨d, G⟩ ← parseGame j
+  let f ← getNatList j "f"
+  let g ← getNatList j "g"
+  let v ← getEMat j "v" d 1
+  return answer (checkUnentLower G f g v) fun _ =>
+    if f.length != G.nX || g.length != G.nY then "function_length"
+    else if !fnValid G.nA G.nX (fnOfList f) || !fnValid G.nB G.nY (fnOfList g) then "answer_out_of_range"
+    else if !(avgOperator G (fnOfList f) (fnOfList g)).isHermitian then "operator_not_hermitian"
+    else "zero_vector"
+
+def hUnentUpper : Handler := fun j => do
+  let ⟨d, G⟩ ← parseGame j
+  let c ← getRat j "c"
+  let Ls ← getEMatList j "Ls" d d
+  let LA := Ls.toArray
+  let nf := numFns G.nA G.nX
+  let ng := numFns G.nB G.nY
+  if LA.size != nf * ng then return reject s!"Ls_length_{LA.size}_expected_{nf * ng}"
+  let LsF : Nat → EMat d d := fun i => LA.getD i zero
+  return answerB (checkUnentUpper G c LsF) fun _ =>
+    match (List.range (nf * ng)).findSome? fun t =>
+        (psdWhy (scalar c - avgOperator G (fnOfIdx G.nA G.nX (t / ng)) (fnOfIdx G.nB G.nY (t % ng))) (LsF t)).map
+          fun s => s!"pair_{t}_{s}" with
+    | some s => s
+    | none => "rejected"
+
+def hUnentConstLower : Handler := fun j => do
+  let ⟨d, G⟩ ← parseGame j
+  let a ← getNat j "a"
+  let b ← getNat j "b"
+  let v ← getEMat j "v" d 1
+  return answer (checkUnentConstLower G a b v) fun _ =>
+    if a ≥ G.nA || b ≥ G.nB then "answer_out_of_range"
+    else if !(constOperator G a b).isHermitian then "operator_not_hermitian" else "zero_vector"
+
+def hUnentConstUpper : Handler := fun j => do
+  let ⟨d, G⟩ ← parseGame j
+  let c ← getRat j "c"
+  let Ls ← getEMatList j "Ls" d d
+  let LA := Ls.toArray
+  if LA.size != G.nA * G.nB then return reject s!"Ls_length_{LA.size}_expected_{G.nA * G.nB}"
+  let LsF : Nat → EMat d d := fun i => LA.getD i zero
+  return answerB (checkUnentConstUpper G c LsF) fun _ =>
+    match (List.range (G.nA * G.nB)).findSome? fun t =>
+        (psdWhy (scalar c - constOperator G (t / G.nB) (t % G.nB)) (LsF t)).map fun s => s!"pair_{t}_{s}" with
+    | some s => s
+    | none => "rejected"
+
+/-! hedging / cloning programs; `σ` reorders the tensor factors (identity for one repetition) -/
+
+def hedgePrimal (a b : Nat) (σ : Option (Fin (a * b) → Fin (a * b))) : Handler := fun j => do
+  let Q0 ← getEMat j "Q" (a * b) (a * b)
+  let X0 ← getEMat j "X" (a * b) (a * b)
+  let L ← getEMat j "L" (a * b) (a * b)
+  let (Q, X) := match σ with
+    | some s => (reindex s Q0, reindex s X0)
+    | none => (Q0, X0)
+  if let some s := σ then
+    if !isSurj s then return reject "sigma_not_a_permutation"
+  return answer (checkHedgePrimal a b Q X L) fun _ =>
+    if !Q.isHermitian then "Q_not_hermitian"
+    else match psdWhy X L with
+      | some s => s!"X_{s}"
+      | none => if !(ptr1 a b X).beq one then "partial_trace_not_identity" else "rejected"
+
+def hedgeDual (isMax : Bool) (a b : Nat) (σ : Option (Fin (a * b) → Fin (a * b))) : Handler := fun j => do
+  let Q0 ← getEMat j "Q" (a * b) (a * b)
+  let Y ← getEMat j "Y" b b
+  let L ← getEMat j "L" (a * b) (a * b)
+  let Q := match σ with
+    | some s => reindex s Q0
+    | none => Q0
+  if let some s := σ then
+    if !isSurj s then return reject "sigma_not_a_permutation"
+  let r := if isMax then checkHedgeMaxDual a b Q Y L else checkHedgeMinDual a b Q Y L
+  return answer r fun _ =>
+    if !Y.isHermitian then "Y_not_hermitian"
+    else match psdWhy (if isMax then kronIY a Y - Q else Q - kronIY a Y) L with
+      | some s => s!"slack_{s}"
+      | none => "rejected"
+
+def withAB (f : (a b : Nat) → Handler) : Handler := fun j => do
+  let a ← getNat j "a"
+  let b ← getNat j "b"
+  f a b j
+
+/-- tie checks of the index conventions: `Tr_1 (reindex σ X)`, `reindex σ M`, `1_a ⊗ Y` -/
+def hPtr1 (a b : Nat) (σ : Option (Fin (a * b) → Fin (a * b))) : Handler := fun j => do
+  let X0 ← getEMat j "X" (a * b) (a * b)
+  let X := match σ with
+    | some s => reindex s X0
+    | none => X0
+  return Json.mkObj [("mat", matJson (ptr1 a b X))]
+
+def hReindex (N : Nat) (σ : Fin N → Fin N) : Handler := fun j => do
+  let M ← getEMat j "M" N N
+  return Json.mkObj [("mat", matJson (reindex σ M))]
+
+def hKronIY : Handler := fun j => do
+  let a ← getNat j "a"
+  let b ← getNat j "b"
+  let Y ← getEMat j "Y" b b
+  return Json.mkObj [("mat", matJson (kronIY a Y))]
+
+def hCloneQ : Handler := fun j => do
+  let m ← getNat j "m"
+  let states ← getEMatList j "states" m 1
+  let probs ← getRatList j "probs"
+  if states.length != probs.length then return reject "length_mismatch"
+  return Json.mkObj [("mat", matJson (cloneQ states probs))]
+
+def handlers : List (String × Handler) :=
+  [("c09_avgop", hAvgOp), ("c09_unent_lower", hUnentLower), ("c09_unent_upper", hUnentUpper),
+   ("c09_unent_const_lower", hUnentConstLower), ("c09_unent_const_upper", hUnentConstUpper),
+   ("c09_hedge_primal", withAB fun a b => hedgePrimal a b none),
+   ("c09_hedge_max_dual", withAB fun a b => hedgeDual true a b none),
+   ("c09_hedge_min_dual", withAB fun a b => hedgeDual false a b none),
+   ("c09_hedge2_primal", hedgePrimal 4 4 (some hedgeSigma2)),
+   ("c09_hedge2_max_dual", hedgeDual true 4 4 (some hedgeSigma2)),
+   ("c09_hedge2_min_dual", hedgeDual false 4 4 (some hedgeSigma2)),
+   ("c09_clone2_primal", hedgePrimal 16 4 (some cloneSigma2)),
+   ("c09_clone2_max_dual", hedgeDual true 16 4 (some cloneSigma2)),
+   ("c09_clone_q", hCloneQ),
+   ("c09_ptr1", withAB fun a b => hPtr1 a b none), ("c09_hedge2_ptr1", hPtr1 4 4 (some hedgeSigma2)),
+   ("c09_clone2_ptr1", hPtr1 16 4 (some cloneSigma2)), ("c09_hedge2_reindex", hReindex (4 * 4) hedgeSigma2),
+   ("c09_clone2_reindex", hReindex (16 * 4) cloneSigma2), ("c09_kron_iy", hKronIY)]
+
 end Toq.Driver.C09
